@@ -8,6 +8,7 @@
 From Coq Require Import ZArith List Bool.
 From BV Require Import Lib.Cases Model.LaxSem Model.Restart Model.Pool
      Proofs.PoolJobs Proofs.PoolInv Proofs.PoolCor.
+From BV Require Import Proofs.PoolRefuted.
 From BV Require Gen.G_pool_shape.
 From BV Require Import Proofs.PoolSup.
 From BV Require Import Model.PoolSys Proofs.PoolSysProofs.
@@ -106,6 +107,26 @@ Theorem C07_every_job_before_close_resolves : forall c n bd sched y,
     /\ pstate (par y) = 1 /\ (length (jobs (par y)) <= n)%nat /\ (length sched <= 6 * n + 1)%nat.
 Proof. exact every_maximal_schedule_completes. Qed.
 Print Assumptions C07_every_job_before_close_resolves.
+
+(* ---- not satisfied by the pinned tree (known findings C07:queued-jobs-dropped-after-close and
+   C07:result-credited-to-other-worker): jobs still queued at close() are lost with the last
+   recycled worker; the counter a worker waits on before exiting is credited to the first owner
+   of a multi-part job *)
+Theorem C07_every_job_submitted_before_close_resolves_refuted :
+  exists c tr,
+    wlist (run c tr) = [] /\ nprocs (run c tr) = 2
+    /\ length (filter (fun x => negb (ready x)) (jobs (run c tr))) = 3%nat
+    /\ wlist (fst (step (run c tr) ETick)) = []
+    /\ pstate (run c tr) = 1.
+Proof. exact no_replacement_after_close. Qed.
+Print Assumptions C07_every_job_submitted_before_close_resolves_refuted.
+
+Theorem C07_result_credited_to_its_sender_refuted :
+  exists c tr,
+    map (fun q => (pid q, counter q)) (procs (run c tr)) = [(0, 1); (1, 0)]
+    /\ (exists x, get_job (run c tr) 0 = Some x /\ cp x = [Some 0; Some 1]).
+Proof. exact result_credited_to_other_worker. Qed.
+Print Assumptions C07_result_credited_to_its_sender_refuted.
 
 Example C07_witness :
   let s := run c07_cfg c07_tr in
